@@ -838,6 +838,7 @@ func WellFormedBlocks(b Bounds) []*Block {
 	out = append(out, hofBlocks()...)
 	out = append(out, mathBlocks()...)
 	out = append(out, longBlocks(b)...)
+	out = append(out, mixBlocks(b)...)
 	out = append(out, d2Blocks(b)...)
 	out = append(out, d1Blocks(b)...)
 	return out
@@ -859,6 +860,6 @@ func Describe(b Bounds) string {
 		"(for) @for over 6 starts x 10 conditions x 7 increments (non-terminating conditions only with 8 non-growing combinations); "+
 		"(d2) every function x arity 1..3 x every position holding one of %d inner calls (foldable constants, dynamic, {time live}, key, erroneous), other arguments from the reduced pool (%d values at arity 3) as constant or group; "+
 		"(leaf) 20 group/key references ({0},{-1},{99},{key},{src},{line},{.},{#},{.#},{@}, names that look like numbers ...) alone and in pairs between literal text; "+
-		"(long) templates of 1..%d segments laid out by 10 cycles of {literal, foldable constant call, group, key, call on a group}, as the template itself and as the one quoted argument of a call (the segments are then the stages of the argument's own builder); (rng, C08 only) every @range over the integers of the pool whose length is <= 65536 but whose loop variable would leave int64; (math) %d formulas (17 binary operators x 7x7 operands, 18 unary, malformed shapes) x all pairs of %d group values",
+		"(long) templates of 1..%d segments laid out by 10 cycles of {literal, foldable constant call, group, key, call on a group}, as the template itself and as the one quoted argument of a call (the segments are then the stages of the argument's own builder); (mix) every function x arity 1..2 (thorough: 3) x every position holding a value (the position's keywords, numbers, dates, lists, a JSON document, a path, a format) split at up to 4 points into constant text and a group reference inside one quoted argument (`\"2020-03-01T{0}\"`: the optimiser's all-empty probe sees a proper part of the run-time value), head or tail in the group, the other arguments from a small pool; (rng, C08 only) every @range over the integers of the pool whose length is <= 65536 but whose loop variable would leave int64; (math) %d formulas (17 binary operators x 7x7 operands, 18 unary, malformed shapes) x all pairs of %d group values",
 		len(Functions()), b.D1MaxArity, len(Full), b.D1FullArity, len(Reduced), len(innerCalls()), len(b.D2Arity3Pool), LongMax(b.Tier), len(mathFormulas()), len(MathValues))
 }
